@@ -23,7 +23,42 @@ type c10Call struct {
 	Run     func(p *c10Pool) (obs string, canon string)
 }
 
-func obsGeom(g geom.Geometry) string { return "G:" + lib.Hex(g.AsBinary()) }
+// c10Keeper retains RESULT values of earlier calls (geometries, sequences) so that the history can
+// re-observe them after later calls: results are values too, and a later call must not be able to
+// overwrite them through shared backing storage. Only the sequential history mode sets curKeeper;
+// in race mode it stays nil (never written), so reading it from many goroutines is not a race.
+type c10Keeper struct {
+	active bool
+	reobs  []func() string
+	first  []string
+	keys   []string
+	curKey string
+}
+
+const c10KeepMax = 20
+
+var curKeeper *c10Keeper
+
+func keepResult(f func() string, o string) {
+	k := curKeeper
+	if k == nil || !k.active || len(k.reobs) >= c10KeepMax {
+		return
+	}
+	for _, have := range k.keys { // one retained result per distinct call: every operation is represented
+		if have == k.curKey {
+			return
+		}
+	}
+	k.reobs = append(k.reobs, f)
+	k.first = append(k.first, o)
+	k.keys = append(k.keys, k.curKey)
+}
+
+func obsGeom(g geom.Geometry) string {
+	o := "G:" + lib.Hex(g.AsBinary())
+	keepResult(func() string { return "G:" + lib.Hex(g.AsBinary()) }, o)
+	return o
+}
 
 func obsGeomErr(g geom.Geometry, err error) string {
 	if err != nil {
@@ -70,6 +105,14 @@ var auxOps = []string{"seq.Reverse", "seq.Slice", "seq.Force", "seq.Envelope", "
 func genCall(r *lib.Rng, p *c10Pool, cat int) c10Call {
 	n := len(p.G)
 	i, j := r.Intn(n), r.Intn(n)
+	if strings.HasPrefix(p.Class, "shared") && cat == 3 && r.Chance(2, 3) {
+		// operands that share backing storage: aim at the operations that walk or re-assemble coordinates
+		ops := []string{"DumpCoordinates", "Summary", "String", "Dump", "Boundary", "Reverse", "AsText", "Force2D",
+			"ForceCoordinatesType", "TransformXY", "Densify", "Simplify", "ConvexHull", "Envelope", "AsBinary", "MarshalJSON"}
+		op := ops[r.Intn(len(ops))]
+		k := r.Intn(4)
+		return c10Call{fmt.Sprintf("%s:%d:%d", op, i, k), false, func(p *c10Pool) (string, string) { return runUnary(op, p.G[i], k), "" }}
+	}
 	if p.Class == "subtol" && cat == 0 { // aim the binary overlay calls at the near-degenerate pair
 		i = r.Intn(2)
 		j = 1 - i
